@@ -15,6 +15,25 @@ RingResult(op, a, b, n) ==
 \* an unsigned result type cannot hold a negative number: the call must panic instead of wrapping
 MustPanic(res, exp) == res = "U" /\ exp.s = 1
 
+(* Products of very long operands (the code switches to chunked multiplication above 1024 words) are not recomputed:
+   TLC would need hours for one of them.  They are checked through consequences of c = a * b that cost one pass over
+   the limbs each: the sign, the length (len a + len b or one less, in limbs), and the residues modulo eight primes
+   below 2^15.  Every one of these is implied by the definition, so a failure is a violation; agreement on all of them
+   is not a proof (an error that is a multiple of the product of the primes, about 2^120, would pass). *)
+HugeLimbPairs == 4000000
+Primes == <<32749, 32719, 32717, 32713, 32707, 32693, 32687, 32653>>
+IsHuge(op, a, b) == op \in {"mul", "sqr"} /\ Len(a.m) * Len(IF op = "sqr" THEN a.m ELSE b.m) > HugeLimbPairs
+HugeProductOK(a, b, v) ==
+  /\ IsInt(v)
+  /\ IF a.m = <<>> \/ b.m = <<>> THEN v.m = <<>>
+     ELSE /\ v.s = (IF a.s = b.s THEN 0 ELSE 1)
+          /\ Len(v.m) \in {Len(a.m) + Len(b.m) - 1, Len(a.m) + Len(b.m)}
+          /\ \A i \in 1..Len(Primes) : Residue(v.m, Primes[i]) = (Residue(a.m, Primes[i]) * Residue(b.m, Primes[i])) % Primes[i]
+HugeOutcomeOK(res, op, a, b, o) ==
+  LET bb == IF op = "sqr" THEN a ELSE b
+      neg == a.m # <<>> /\ bb.m # <<>> /\ a.s # bb.s
+  IN IF res = "U" /\ neg THEN o.k = "panic" ELSE o.k = "ok" /\ HugeProductOK(a, bb, o.v)
+
 \* outcome o = [k |-> "ok", v |-> int] or [k |-> "panic"] against the definition
 OutcomeOK(res, exp, o) ==
   IF MustPanic(res, exp) THEN o.k = "panic"
